@@ -871,3 +871,146 @@ func copiedToGiven(fn *ssa.Function, buf ssa.Value, fromGiven func(ssa.Value) bo
 	}
 	return found
 }
+
+// ---------------------------------------------------------------------------
+// E11
+
+func init() {
+	register("E11", "nothing more is written once a write may have failed: between a call that can write output and the next such call, every path passes a test that finds the first call's error nil (or a break/continue sentinel)", runE11)
+}
+
+// runE11: the bytes a failing writer accepted are a prefix of the fault-free output only if the render
+// stops writing at the failure. For every write-bearing call c1 with error e1, no other write-bearing
+// call is reachable from c1 on a path that has not taken the nil edge of a test of e1 (or the equal
+// edge of a comparison of e1.Cause() with a package-level sentinel). A branch on e1 of a shape the rule
+// does not read clears both of its edges.
+func runE11(p *an.Prog, r *an.Result) {
+	roles := GetRoles(p)
+	for _, fn := range p.Funcs {
+		if isMainPkg(fn) || fn.Blocks == nil {
+			continue
+		}
+		name := roles.Label(fn)
+		// the write-bearing calls of this function, by block
+		type wcall struct {
+			call *ssa.Call
+			idx  int
+		}
+		byBlock := map[*ssa.BasicBlock][]wcall{}
+		var all []*ssa.Call
+		for _, b := range fn.Blocks {
+			for i, in := range b.Instrs {
+				c, ok := in.(*ssa.Call)
+				if !ok {
+					continue
+				}
+				if wb, _ := writeBearing(&c.Call); wb {
+					byBlock[b] = append(byBlock[b], wcall{c, i})
+					all = append(all, c)
+				}
+			}
+		}
+		if len(all) < 1 {
+			continue
+		}
+		for _, c1 := range all {
+			_, ei := writeBearing(&c1.Call)
+			ev := errorValueOf(c1, ei)
+			if ev == nil {
+				continue // discarded outright: E4
+			}
+			r.Counts["write-bearing calls followed"]++
+			fl := flowOfError(ev)
+			mentionsErr := func(cond ssa.Value) bool {
+				found := false
+				condMentions(cond, func(v ssa.Value) bool {
+					if fl.derived[v] {
+						found = true
+					}
+					if c := an.CallOf(v); c != nil {
+						if c.IsInvoke() && fl.derived[c.Value] {
+							found = true
+						}
+						for _, a := range c.Args {
+							if fl.derived[a] {
+								found = true
+							}
+						}
+					}
+					return false
+				}, 0)
+				return found
+			}
+			// cleared(ifi, k): taking successor k of the branch establishes that e1 is nil or a sentinel
+			cleared := func(ifi *ssa.If, k int) bool {
+				if cmp, ok := fl.tests[ifi]; ok {
+					if b, ok := cmp.(*ssa.BinOp); ok && ifi.Cond == ssa.Value(b) {
+						if b.Op == token.EQL {
+							return k == 0
+						}
+						return k == 1
+					}
+					return true
+				}
+				if b, ok := ifi.Cond.(*ssa.BinOp); ok && (b.Op == token.EQL || b.Op == token.NEQ) {
+					for _, pair := range [][2]ssa.Value{{b.X, b.Y}, {b.Y, b.X}} {
+						c := an.CallOf(pair[0])
+						if c == nil || !c.IsInvoke() || c.Method.Name() != "Cause" || !fl.derived[c.Value] {
+							continue
+						}
+						if u, ok := pair[1].(*ssa.UnOp); ok {
+							if _, isG := u.X.(*ssa.Global); isG {
+								if b.Op == token.EQL {
+									return k == 0
+								}
+								return k == 1
+							}
+						}
+					}
+				}
+				// a test of the error the rule does not read: no claim
+				return mentionsErr(ifi.Cond)
+			}
+			var bad *ssa.Call
+			seen := map[*ssa.BasicBlock]bool{}
+			var dfs func(b *ssa.BasicBlock, from int)
+			dfs = func(b *ssa.BasicBlock, from int) {
+				if bad != nil {
+					return
+				}
+				for _, w := range byBlock[b] {
+					if w.idx >= from {
+						bad = w.call
+						return
+					}
+				}
+				last := b.Instrs[len(b.Instrs)-1]
+				ifi, _ := last.(*ssa.If)
+				for k, s := range b.Succs {
+					if ifi != nil && cleared(ifi, k) {
+						continue
+					}
+					if seen[s] {
+						continue
+					}
+					seen[s] = true
+					dfs(s, 0)
+				}
+			}
+			idx := 0
+			for i, in := range c1.Block().Instrs {
+				if in == ssa.Instruction(c1) {
+					idx = i
+				}
+			}
+			dfs(c1.Block(), idx+1)
+			construct := "writes after " + nonEmpty(an.CallName(&c1.Call), "renderer/dynamic call")
+			if bad != nil {
+				r.Bad(name, construct, bad.Pos(), fmt.Sprintf("%s calls %s (%s) on a path on which the error of %s (%s) has not been found nil: after a failed write more output is sent, so what the writer accepted is not a prefix of the output", an.FuncName(fn), nonEmpty(an.CallName(&bad.Call), "a renderer"), p.Pos(bad.Pos()), nonEmpty(an.CallName(&c1.Call), "the earlier write"), p.Pos(c1.Pos())))
+			} else {
+				r.OK(name, construct, c1.Pos(), "every path to a later write takes the nil (or sentinel) edge of a test of this call's error")
+			}
+		}
+	}
+	r.Floor("write-bearing calls followed", 20)
+}
